@@ -387,7 +387,7 @@ def parse_vspec(path, modules):
                     j = j2
                 i = j
             elif key == 'proof':
-                m = re.match(r'(?:\[([^\]]*)\]\s*)?(\w+)\s+(before|after_unit|after|start|end|ret|scrut|loopstart)\s*(?:/(.*)/)?\s*(?:#(\d+))?\s*(raw)?$', rest)
+                m = re.match(r'(?:\[([^\]]*)\]\s*)?(\w+)\s+(before|after_unit|after|start|end|ret|scrut|loopstart|loopend)\s*(?:/(.*)/)?\s*(?:#(\d+))?\s*(raw)?$', rest)
                 if not m:
                     err('bad proof header', i)
                 pb = ProofBlock(m.group(2), m.group(3), m.group(4) or '', int(m.group(5) or 0), (path, i + 1))
